@@ -57,8 +57,9 @@ def encConnect (a : ConnectArgs) : Except Exc Bytes := do
         | none => 0)
     + cprops.length + wprops.length
   let protoVer : Nat := if a.bridge then a.proto ||| 0x80 else a.proto
+  let rlb ← remLenEncChecked rl
   let ka ← packU16 a.keepalive
-  let hdr := [b8 0x10] ++ remLenEnc rl
+  let hdr := [b8 0x10] ++ rlb
     ++ [b8 (protoName.length / 256), b8 (protoName.length % 256)] ++ protoName ++ [b8 protoVer, b8 flags2] ++ ka
   let cid ← str16 a.clientId
   let willPart ← match a.will with
@@ -83,9 +84,10 @@ def encPublish (proto : Nat) (mid : Nat) (topic payload : Bytes) (qos : Nat) (re
   let command : Nat := 0x30 ||| ((boolBit dup &&& 0x1) <<< 3) ||| (qos <<< 1) ||| boolBit retain
   let pp ← packProps proto props
   let rl := 2 + topic.length + payload.length + (if qos > 0 then 2 else 0) + pp.length
+  let rlb ← remLenEncChecked rl
   let t ← str16 topic
   let m ← if qos > 0 then packU16 mid else pure []
-  pure ([b8 command] ++ remLenEnc rl ++ t ++ m ++ pp ++ payload)
+  pure ([b8 command] ++ rlb ++ t ++ m ++ pp ++ payload)
 
 /-- `_send_command_with_mid(command, mid, dup)`: `struct.pack('!BBH', command, 2, mid)` -/
 def encCmdMid (command : Nat) (mid : Int) (dup : Bool) : Except Exc Bytes := do
@@ -107,14 +109,15 @@ def encPingresp : Bytes := encSimple 0xD0
 def encDisconnect (proto : Nat) (rc : Option Nat) (props : Option Props) : Except Exc Bytes := do
   if proto = 5 then
     match rc, props with
-    | none, none => pure ([b8 0xE0] ++ remLenEnc 0)
+    | none, none => do let rlb ← remLenEncChecked 0; pure ([b8 0xE0] ++ rlb)
     | _, _ =>
       let r := rc.getD 0
       let pp ← match props with
         | some p => p.pack
         | none => pure []
-      pure ([b8 0xE0] ++ remLenEnc (1 + pp.length) ++ [b8 r] ++ pp)
-  else pure ([b8 0xE0] ++ remLenEnc 0)
+      let rlb ← remLenEncChecked (1 + pp.length)
+      pure ([b8 0xE0] ++ rlb ++ [b8 r] ++ pp)
+  else do let rlb ← remLenEncChecked 0; pure ([b8 0xE0] ++ rlb)
 
 /-- one SUBSCRIBE entry: filter + options byte (v5: `SubscribeOptions.pack()`, v3: the QoS) -/
 def encSubEntries : List (Bytes × Nat) → Except Exc Bytes
@@ -128,9 +131,10 @@ def encSubEntries : List (Bytes × Nat) → Except Exc Bytes
 def encSubscribe (proto : Nat) (mid : Nat) (topics : List (Bytes × Nat)) (props : Option Props) : Except Exc Bytes := do
   let pp ← packProps proto props
   let rl := 2 + pp.length + (topics.map (fun t => 2 + t.1.length + 1)).sum
+  let rlb ← remLenEncChecked rl
   let m ← packU16 mid
   let body ← encSubEntries topics
-  pure ([b8 (0x80 ||| 0x2)] ++ remLenEnc rl ++ m ++ pp ++ body)
+  pure ([b8 (0x80 ||| 0x2)] ++ rlb ++ m ++ pp ++ body)
 
 def encUnsubEntries : List Bytes → Except Exc Bytes
   | [] => pure []
@@ -143,8 +147,9 @@ def encUnsubEntries : List Bytes → Except Exc Bytes
 def encUnsubscribe (proto : Nat) (mid : Nat) (topics : List Bytes) (props : Option Props) : Except Exc Bytes := do
   let pp ← packProps proto props
   let rl := 2 + pp.length + (topics.map (fun t => 2 + t.length)).sum
+  let rlb ← remLenEncChecked rl
   let m ← packU16 mid
   let body ← encUnsubEntries topics
-  pure ([b8 (0xA0 ||| 0x2)] ++ remLenEnc rl ++ m ++ pp ++ body)
+  pure ([b8 (0xA0 ||| 0x2)] ++ rlb ++ m ++ pp ++ body)
 
 end Paho
